@@ -31,13 +31,14 @@ def configs():
 def cell(acc, rng, cfgov, a, u, hsctlr_a, size, off, basename, base, big, acc_name, mode, iswrite, mpu=0):
     cfg = diff.full_cfg(cfgov)
     hyp = hsctlr_a is not None
-    cpu = target.new_cpu(cfgov, False, LAYOUT)
-    target.budget_cpu(cpu)
+    cpu = target.new_cpu(cfgov, hyp, LAYOUT)          # Hyp cells on the hooked flavour: reporting a fault to Hyp mode needs the TLB-maintenance hook
+    target.budget_cpu(cpu, hyp)
     st_ = {'cpsr': gen.cpsr_value(m=gen.MODES['hyp' if hyp else mode], e=big, nzcvq=rng.getrandbits(5)),
            'sctlr': (a << 1) | (u << 22), 'R.PC': 0x1000}
     if hyp:
         st_['scr'] = 1
         st_['hsctlr'] = hsctlr_a << 1
+        st_['hcr'] = rng.choice((0, 1 << 12, (1 << 12) | 1, 1))          # HCR.DC / VM do not apply to Hyp-mode accesses: still Strongly-ordered, still faulting when split
     if mpu:
         # PMSA: region 0 everything RW; region 1 (higher priority) covers the mid device with AP = privileged-only (1) or user-read-only (2)
         st_['sctlr'] |= 1
@@ -57,7 +58,7 @@ def cell(acc, rng, cfgov, a, u, hsctlr_a, size, off, basename, base, big, acc_na
     if rng.random() < 0.3:
         value = int.from_bytes(bytes(range(1, size + 1)), 'little')
     pre = target.snapshot(cpu)
-    M = Machine(pre, LAYOUT, cfg)
+    M = Machine(pre, LAYOUT, cfg, hyp)
     # reference
     try:
         if acc_name == 'mem_a':
